@@ -320,10 +320,17 @@ def gen():
     cache_ok = sorted(c for c in cache_calls if c not in ("len", "is_empty")) == ["pop_front", "pop_front", "push_back"] and \
         bool(re.search(r"let mut cache = VecDeque::new\(\);", node_code)) and "with_capacity" not in node_code
     defB("NODE_CACHE_IS_UNBOUNDED_FIFO", cache_ok, "node.rs cache: VecDeque::new(), one push_back, pop_front in the two replay loops only")
-    enq = " ".join(fn_body(node_code, r"pub fn enqueue\(self\)", "node.rs::enqueue").split())
+    # (a shape that is not recognised any more is a fact that no longer holds, not a reason to stop:
+    # the check then goes on to search for a failing input)
+    def body_or_empty(text, sig, where):
+        try:
+            return fn_body(text, sig, where)
+        except GenError:
+            return ""
+    enq = " ".join(body_or_empty(node_code, r"pub fn enqueue\(self\)", "node.rs::enqueue").split())
     defB("NODE_ENQUEUE_FORWARDS_WITH_PLAIN_SEND", "self.for_each_async(move |node_event| sender.send(node_event.into()))" in enq and "send_with_priority" not in enq and "send_with_timer" not in enq,
          "enqueue() = for_each_async(|e| sender.send(e.into()))")
-    stop_body = fn_body(node_code, r"pub fn stop\(&self\)\s*\{", "node.rs::stop")
+    stop_body = body_or_empty(node_code, r"pub fn stop\(&self\)\s*\{", "node.rs::stop")
     defB("NODE_STOP_CLEARS_RUNNING", bool(re.search(r"running\.store\(\s*false", stop_body)), "NodeHandler::stop stores false into the running flag")
     emit("")
 
@@ -436,7 +443,10 @@ def gen():
     # network.rs::connect_sync_with: connect_with()?, then nothing but: sleep 1 ms; is_ready ->
     # Some(true) => Ok / Some(false) => go on / None => Err(ConnectionRefused)   (the model of C03)
     nw = strip_comments(read("network.rs"))
-    csb = " ".join(fn_body(nw, r"pub fn connect_sync_with\s*\(", "network.rs::connect_sync_with").split())
+    try:
+        csb = " ".join(fn_body(nw, r"pub fn connect_sync_with\s*\(", "network.rs::connect_sync_with").split())
+    except GenError:
+        csb = ""
     shape = ("let (endpoint, addr) = self.connect_with(transport_connect, addr)?; loop { "
              "std::thread::sleep(Duration::from_millis(1)); match self.is_ready(endpoint.resource_id()) { "
              "Some(true) => return Ok((endpoint, addr)), Some(false) => continue, None => { "
